@@ -298,7 +298,7 @@ def run(prop, replay_file=None):
             files = sorted(glob.glob(simdir + "/tr_*"))
             for f in files:
                 states = [st for _n, _a, st in tlc.parse_sim_file(f)]
-                events, mism = broker_conf.replay(states, printing=(nbeh % 4 == 3), ctor_funds=(nbeh % 3 == 1), ccy=["USD", "GBP", "USD", "EUR", "USD"][nbeh % 5])
+                events, mism = broker_conf.replay(states, printing=(nbeh % 4 == 3), ctor_funds=(nbeh % 3 == 1), ccy=["USD", "GBP", "USD", "EUR", "USD"][nbeh % 5], seconds=[0.0, 59.5, 0.0, 0.25][nbeh % 4])
                 nbeh += 1
                 ncalls += len(events) - 1
                 d = digest(events)
@@ -407,7 +407,7 @@ def transition_cover(rep, prop, w, feats_all, depth=3):
             continue
         done.add((s, d))
         states = [nodes[x] for x in path[s]] + [nodes[d]]
-        events, mism = broker_conf.replay(states, printing=(n % 4 == 3), ctor_funds=(n % 3 == 1), ccy=["USD", "GBP", "USD", "EUR", "USD"][n % 5])
+        events, mism = broker_conf.replay(states, printing=(n % 4 == 3), ctor_funds=(n % 3 == 1), ccy=["USD", "GBP", "USD", "EUR", "USD"][n % 5], seconds=[0.0, 59.5, 0.0, 0.25][n % 4])
         n += 1
         feats_all[digest(events)] = behaviour_features(events)
         for step, tag, detail in attribute(mism):
@@ -702,7 +702,7 @@ def run_replay_file(rep, path):
         tlc.stage_all(w)
         if payload.get("kind") == "calls":
             # the same calls with event printing off and on (the original run used one of the two)
-            trs = [broker_random.record_calls(1 + k, payload["t0"], payload["quote"], payload["fee"], payload["calls"], printing=bool(k), ctor_funds=bool(k))
+            trs = [broker_random.record_calls(1 + k, payload["t0"], payload["quote"], payload["fee"], payload["calls"], printing=bool(k), ctor_funds=bool(k), seconds=59.5 * k)
                    for k in (0, 1)]
         else:
             trs = [broker_random.gen_trace(payload["trace_seed"])]
